@@ -53,9 +53,10 @@ def check (input impl : String) : Verdict :=
         else if kvGet toks "params" ≠ some "1" then some "different-parameters"
         else if kvGet toks "ids" ≠ some "1" then some "different-id"
         else if kvGet toks "recv" ≠ some recv then some "events-of-incarnations-not-one-stream"
+        else if ((kvGet toks "hw") >>= (·.toNat?)).getD 0 > 1 then some "more-concurrent-calls-than-workers"
         else if (fields ((kvGet toks "pauses").getD "-") ",").any (fun x => match x.toNat? with | some ms => ms < 1000 | none => false) then some "restarted-without-a-pause"
         else none
-      { model := model, implView := some (joinWith " " ((words impl).filter (fun w => !w.startsWith "pauses="))), spec := sp, tags := [s!"failures{k}"] ++ (if input.contains "runms" then ["long-running-incarnation"] else []) ++ (if input.contains "delay" then ["slow-setup"] else []) ++ (if input.contains "cancelwrap" then ["wrapped-cancel"] else []) }
+      { model := model, implView := some (joinWith " " ((words impl).filter (fun w => !w.startsWith "pauses=" && !w.startsWith "hw="))), spec := sp, tags := [s!"failures{k}"] ++ (if input.contains "runms" then ["long-running-incarnation"] else []) ++ (if input.contains "delay" then ["slow-setup"] else []) ++ (if input.contains "cancelwrap" then ["wrapped-cancel"] else []) }
     | none => { model := "bad-input" }
   | _ => { model := "bad-input" }
 
